@@ -227,6 +227,8 @@ def seed_case(kind):
 LATER_BASES = [
     ("C-owner", lambda: mg.tensor(np.arange(12.0).reshape(3, 4) + 1)),
     ("F-owner", lambda: mg.tensor(np.asfortranarray(np.arange(12.0).reshape(3, 4) + 1))),
+    ("F-owner:float32", lambda: mg.tensor(np.asfortranarray((np.arange(12.0).reshape(3, 4) + 1).astype(np.float32)))),
+    ("C-owner:float16", lambda: mg.tensor((np.arange(12.0).reshape(3, 4) + 1).astype(np.float16))),
     ("former-view:T", lambda: (mg.tensor(np.arange(12.0).reshape(4, 3) + 1)).T),
     ("former-view:swap3d", lambda: mg.swapaxes(mg.tensor(np.arange(24.0).reshape(2, 3, 4) + 1), 0, 2)),
     ("former-view:slice", lambda: (mg.tensor(np.arange(24.0).reshape(6, 4) + 1))[::2]),
@@ -370,7 +372,7 @@ def run(ctx: Ctx) -> Outcome:
     out.rule = ("(a) random single-epoch programs with many views, one backward: for every (view, base) pair value, availability "
                 "and memory sharing of the gradients, and no sharing between gradients of unrelated tensors; (b) 17 view chains x "
                 "every ordering of 1..3 of 9 consumers (so that each contribution arrives first) x 2 seed kinds; (c) the model's "
-                "reshape view-or-copy rule vs NumPy on random strided windows; (d) 210 histories in which the view chain is taken "
+                "reshape view-or-copy rule vs NumPy on random strided windows; (d) 294 histories in which the view chain is taken "
                 "*after* backward() from a C-/Fortran-ordered owner or from a former view (transposed, axis-swapped, strided) that "
                 "becomes a base by being viewed")
     seen = engcheck.report(out, results, "C06", oracle)
